@@ -423,7 +423,7 @@ func tryWitness(rf *ReplayFile, r *OblResult, rep *FuncReport, dir string) {
 			rf.TestSrc = string(data)
 			rf.TestOut = out
 			for _, ol := range strings.Split(out, "\n") {
-				if (strings.Contains(ol, "GOCV-PANIC") || strings.Contains(ol, "GOCV-FAIL")) && strings.Contains(ol, label) {
+				if (strings.Contains(ol, "GOCV-PANIC") || strings.Contains(ol, "GOCV-FAIL") || strings.Contains(ol, "DATA RACE")) && strings.Contains(ol, label) {
 					rf.Confirmed = true
 					rf.Verdict = "witness " + filepath.Base(f) + " reproduces it on the real code: " + strings.TrimSpace(ol)
 					return
@@ -466,7 +466,12 @@ func runTestOverlay(work, pkgPath, src, fileName, runPat string) (string, error)
 	ov, _ := json.Marshal(map[string]interface{}{"Replace": replace})
 	ovFile := filepath.Join(work, "overlay.json")
 	os.WriteFile(ovFile, ov, 0o644)
-	cmd := exec.Command("go", "test", "-modfile="+alt, "-overlay="+ovFile, "-vet=off", "-count=1", "-v", "-timeout", "60s", "-run", runPat, "./"+rel)
+	argv := []string{"test", "-modfile=" + alt, "-overlay=" + ovFile, "-vet=off", "-count=1", "-v", "-timeout", "120s", "-run", runPat}
+	if strings.Contains(src, "// gocv-flags: -race") {
+		argv = append(argv, "-race")
+	}
+	argv = append(argv, "./"+rel)
+	cmd := exec.Command("go", argv...)
 	cmd.Dir = repo
 	cmd.Env = goEnv()
 	out, err := cmd.CombinedOutput()
